@@ -594,6 +594,7 @@ from harness import sizes as _sizes  # noqa: E402
 
 _sizes.size_cases(70000, extra=_sizes.ENV_SIZES)
 _sizes.size_cases(5000, extra=_sizes.ENV_SIZES)
+_sizes.size_cases(1 << 21, extra=_sizes.ENV_SIZES)
 for _l in (32, 62, 110, 410):
     _sizes.size_cases(_l)
 
